@@ -303,6 +303,10 @@ func EncodeRemainLength(r io.ByteReader) (int, error) {
 			return 0, codes.ErrMalformed
 		}
 		if (digit & 128) == 0 {
+			if digit == 0 && multiplier > 0 {
+				// the encoding must use the minimum number of bytes [MQTT-1.5.5-1]
+				return 0, codes.ErrMalformed
+			}
 			break
 		}
 		multiplier += 7
